@@ -14,13 +14,13 @@ STUBS = []
 ASSUMPTIONS = ['flow values and written values are symbolic reals (present => non-zero)',
                'lookup histories are produced by REAL earlier lookups (k distinct valid keys, k around each cache capacity: 100 for '
                'CompiledChemicals, 500 for MaterialIndexer) and by a real index_overlap call from a package with another order',
-               'group composition is concrete (0.25 / 0.75 by mol)']
+               'group composition is concrete (Octane 0.75, Ethanol 0.25 by mol; members listed out of chemical order)']
 OUTSIDE = ['chemical sets larger than 4', 'the database alias tables themselves', 'wt-basis group compositions']
 BOUNDS = {'quick': dict(chemicals=4, groups=1, aliases=1, phases='lg', cache_fill='0, 99, 100, 101 / 0, 499, 500, 501 (+ poisoning)'),
           'thorough': dict(chemicals=4, groups=1, aliases=1, phases='lg, Lls', cache_fill='as quick + 250, 1200 / 1500')}
 
 IDS = ['Water', 'Ethanol', 'Octane', 'Glucose']
-GROUP = ('fuel', ['Ethanol', 'Octane'], [0.25, 0.75])
+GROUP = ('fuel', ['Octane', 'Ethanol'], [0.75, 0.25])      # listed out of chemical order on purpose
 ALIAS = ('Water', 'Agua')
 _fx = {}
 
